@@ -4,12 +4,17 @@
 // short-circuit,append-an-option} x stream {same}) x base channel {recording
 // stub, real *grpc.ClientConn on bufconn, in-process channel, HTTP channel over
 // an in-memory RoundTripper} x base outcome {ok, error}. Every configuration
-// makes one unary call and one stream creation through the outermost wrapper.
+// makes one unary call and one stream creation through the outermost wrapper,
+// each on a context of its own. Re-entrant cases (runReentrant) put a third-party
+// wrapper into the chain; sequence cases (seq.go) make further calls on a context
+// that stems from an earlier call (the stream's Context(), a context an
+// interceptor was handed, the caller's own, or one derived from those).
 package main
 
 import (
 	"context"
 	"fmt"
+	"hash/fnv"
 	"io"
 	"net"
 	"net/url"
@@ -61,6 +66,9 @@ type caseT struct {
 	Ctx int `json:"ctx,omitempty"`
 	// Re, when set, makes this a RE-ENTRANT case (see runReentrant); Layers is unused.
 	Re *reCase `json:"reentrant,omitempty"`
+	// Seq, when set, makes this a SEQUENCE case (see seq.go): three calls, the second and third on a context
+	// that stems from the first; Ctx is unused (all contexts stay live).
+	Seq *seqCase `json:"sequence,omitempty"`
 }
 
 type reCase struct {
@@ -89,6 +97,9 @@ func (c caseT) String() string {
 		return fmt.Sprintf("reentrant base=%s layers-beneath-wrapper=%d layers-above=%d (unary=%s stream=%s) rpc=%s, from inside Unwrap: %s", c.Base, c.Re.Inner, c.Re.Above, behNames[c.Re.Cfg.U], behNames[c.Re.Cfg.S], c.Re.K1, c.Re.K2)
 	}
 	s := fmt.Sprintf("base=%s depth=%d unary=%s stream=%s base_err=%v", c.Base, len(c.Layers), c.pattern("unary"), c.pattern("stream"), c.BaseErr)
+	if c.Seq != nil {
+		s += fmt.Sprintf(" SEQUENCE: %s call on a new context, then %s and %s on %s", c.Seq.K1, c.Seq.K2, c.Seq.K3, c.Seq.srcName())
+	}
 	if c.Ctx != 0 {
 		s += " ctx=" + []string{"live", "cancelled-before-the-call", "cancelled-by-innermost-interceptor-before-it-returns"}[c.Ctx]
 	}
@@ -100,6 +111,7 @@ func (c caseT) String() string {
 type entry struct {
 	layer     int // 1 = innermost wrapper ... depth = outermost; 0 = the base
 	kind      string
+	ctx       context.Context // the context this participant was given
 	method    string
 	req, resp interface{}
 	desc      *grpc.StreamDesc
@@ -145,6 +157,33 @@ func (l *clog) take() []*entry {
 type curT struct {
 	l       *clog
 	baseErr bool
+	// the stream handler announces here that it has started (and has logged its entry): a stream that is
+	// kept open while further calls are made must have its base entry attributed to the right call
+	started chan struct{}
+}
+
+func newCur(l *clog, baseErr bool) *curT {
+	return &curT{l: l, baseErr: baseErr, started: make(chan struct{}, 256)}
+}
+
+// awaitHandler blocks until the server handler of the stream just created has logged its entry.
+func (c *curT) awaitHandler() {
+	select {
+	case <-c.started:
+	case <-time.After(25 * time.Second):
+		fmt.Fprintf(os.Stderr, "INCONCLUSIVE: a stream was created on a real base but its server handler did not start within 25s in case %v\n", current.Load())
+		os.Exit(2)
+	}
+}
+
+func (c *curT) drainSignals() {
+	for {
+		select {
+		case <-c.started:
+		default:
+			return
+		}
+	}
 }
 
 var cur atomic.Value // *curT
@@ -157,7 +196,10 @@ type tagOpt struct {
 type fakeCS struct {
 	grpc.ClientStream
 	tag string
+	ctx context.Context // what a stream's Context() is derived from: the context its creator was given
 }
+
+func (f *fakeCS) Context() context.Context { return f.ctx }
 
 type layerState struct {
 	idx         int
@@ -174,7 +216,7 @@ func mkUnary(l *clog, ls *layerState, b int) grpc.UnaryClientInterceptor {
 		return nil
 	}
 	return func(ctx context.Context, method string, req, reply interface{}, cc *grpc.ClientConn, invoker grpc.UnaryInvoker, opts ...grpc.CallOption) error {
-		e := l.add(&entry{layer: ls.idx, kind: "unary", method: method, req: req, resp: reply, opts: cp(opts), cc: cc})
+		e := l.add(&entry{layer: ls.idx, kind: "unary", ctx: ctx, method: method, req: req, resp: reply, opts: cp(opts), cc: cc})
 		switch b {
 		case bPass:
 			e.called = true
@@ -197,14 +239,14 @@ func mkStream(l *clog, ls *layerState, b int) grpc.StreamClientInterceptor {
 		return nil
 	}
 	return func(ctx context.Context, desc *grpc.StreamDesc, cc *grpc.ClientConn, method string, streamer grpc.Streamer, opts ...grpc.CallOption) (grpc.ClientStream, error) {
-		e := l.add(&entry{layer: ls.idx, kind: "stream", method: method, desc: desc, opts: cp(opts), cc: cc})
+		e := l.add(&entry{layer: ls.idx, kind: "stream", ctx: ctx, method: method, desc: desc, opts: cp(opts), cc: cc})
 		switch b {
 		case bPass:
 			e.called = true
 			e.gotStream, e.gotErr = streamer(ctx, desc, cc, method, opts...)
 			e.retStream, e.retErr = e.gotStream, e.gotErr
 		case bShort:
-			e.retStream = ls.shortStream
+			e.retStream = &fakeCS{tag: ls.shortStream.tag, ctx: ctx} // a new stream object per creation, like a real channel
 		case bAddOpt:
 			e.called = true
 			e.gotStream, e.gotErr = streamer(ctx, desc, cc, method, append(cp(opts), ls.optS)...)
@@ -251,7 +293,7 @@ type recBase struct {
 }
 
 func (r *recBase) Invoke(ctx context.Context, method string, req, reply interface{}, opts ...grpc.CallOption) error {
-	e := r.l.add(&entry{layer: 0, kind: "unary", method: method, req: req, resp: reply, opts: cp(opts)})
+	e := r.l.add(&entry{layer: 0, kind: "unary", ctx: ctx, method: method, req: req, resp: reply, opts: cp(opts)})
 	if r.baseErr {
 		e.retErr = errBase
 		return errBase
@@ -263,13 +305,14 @@ func (r *recBase) Invoke(ctx context.Context, method string, req, reply interfac
 }
 
 func (r *recBase) NewStream(ctx context.Context, desc *grpc.StreamDesc, method string, opts ...grpc.CallOption) (grpc.ClientStream, error) {
-	e := r.l.add(&entry{layer: 0, kind: "stream", method: method, desc: desc, opts: cp(opts)})
+	e := r.l.add(&entry{layer: 0, kind: "stream", ctx: ctx, method: method, desc: desc, opts: cp(opts)})
 	if r.baseErr {
 		e.retErr = errBase
 		return nil, errBase
 	}
-	e.retStream = r.stream
-	return r.stream, nil
+	s := &fakeCS{tag: r.stream.tag, ctx: ctx} // a new stream object per creation, like a real channel
+	e.retStream = s
+	return s, nil
 }
 
 type svcIface interface{}
@@ -295,6 +338,10 @@ func serviceDesc() *grpc.ServiceDesc {
 		Streams: []grpc.StreamDesc{{StreamName: "S", ClientStreams: true, ServerStreams: true, Handler: func(srv interface{}, stream grpc.ServerStream) error {
 			c := cur.Load().(*curT)
 			e := c.l.add(&entry{layer: 0, kind: "stream"})
+			select {
+			case c.started <- struct{}{}:
+			default:
+			}
 			stream.SetHeader(hdr)
 			var in wrapperspb.StringValue
 			if err := stream.RecvMsg(&in); err == nil {
@@ -344,6 +391,7 @@ type problem struct {
 	clause string
 	sub    string
 	what   string
+	call   int // position in a sequence of calls (0: not a sequence case)
 }
 
 var progress int64
@@ -436,28 +484,42 @@ func classifyLog(got, want []int) string {
 	return "order"
 }
 
-func runCase(c caseT, verbose bool) (probs []problem, observed string) {
-	atomic.AddInt64(&progress, 1)
-	current.Store(c.String())
-	add := func(clause, sub, what string) { probs = append(probs, problem{clause, sub, what}) }
-	defer func() {
-		if r := recover(); r != nil {
-			add("panic", "", fmt.Sprintf("library code panicked: %v", r))
-		}
-	}()
+// rig is one configuration set up: a base channel wrapped in the layers of the case.
+type rig struct {
+	c             caseT
+	l             *clog
+	cu            *curT
+	depth         int
+	ch            grpc.ClientConnInterface
+	wantCC        *grpc.ClientConn
+	names         map[grpc.CallOption]string
+	states        []*layerState
+	wrappersBelow []int // number of real wrapper objects beneath layer i
+	probs         []problem
+	obs           []string
+	verbose       bool
+}
+
+func (r *rig) add(call int, clause, sub, what string) {
+	if call > 0 {
+		what = fmt.Sprintf("call #%d of the sequence, a ", call) + what
+	}
+	r.probs = append(r.probs, problem{clause: clause, sub: sub, what: what, call: call})
+}
+
+func newRig(c caseT, verbose bool) *rig {
 	l := &clog{}
-	cur.Store(&curT{l: l, baseErr: c.BaseErr})
-	depth := len(c.Layers)
+	r := &rig{c: c, l: l, cu: newCur(l, c.BaseErr), depth: len(c.Layers), verbose: verbose}
+	cur.Store(r.cu)
+	depth := r.depth
 
 	// base
 	var base grpc.ClientConnInterface
-	var wantCC *grpc.ClientConn
-	recStream := &fakeCS{tag: "stream of the recording base"}
 	switch c.Base {
 	case "rec":
-		base = &recBase{l: l, baseErr: c.BaseErr, stream: recStream}
+		base = &recBase{l: l, baseErr: c.BaseErr, stream: &fakeCS{tag: "stream of the recording base"}}
 	case "grpc":
-		base, wantCC = realCC, realCC
+		base, r.wantCC = realCC, realCC
 	case "inproc":
 		base = inprocCh
 	case "http":
@@ -467,147 +529,200 @@ func runCase(c caseT, verbose bool) (probs []problem, observed string) {
 	}
 
 	// wrapping
-	names := map[grpc.CallOption]string{}
-	states := make([]*layerState, depth+1)
+	r.names = map[grpc.CallOption]string{}
+	r.states = make([]*layerState, depth+1)
 	ch := base
-	wrappersBelow := make([]int, depth+1) // number of real wrapper objects beneath layer i
+	r.wrappersBelow = make([]int, depth+1)
 	nWrappers := 0
 	for i := 1; i <= depth; i++ {
 		ls := &layerState{idx: i}
 		ls.optU = grpc.Header(&ls.hdrU)
 		ls.optS = grpc.Header(&ls.hdrS)
-		names[ls.optU] = fmt.Sprintf("L%d.unary-opt", i)
-		names[ls.optS] = fmt.Sprintf("L%d.stream-opt", i)
+		r.names[ls.optU] = fmt.Sprintf("L%d.unary-opt", i)
+		r.names[ls.optS] = fmt.Sprintf("L%d.stream-opt", i)
 		ls.shortErr = status.Error(codes.Aborted, fmt.Sprintf("short:L%d", i))
 		ls.shortStream = &fakeCS{tag: fmt.Sprintf("short:L%d", i)}
-		states[i] = ls
-		wrappersBelow[i] = nWrappers
+		r.states[i] = ls
+		r.wrappersBelow[i] = nWrappers
 		cfg := c.Layers[i-1]
 		prev := ch
 		ch = grpchan.InterceptClientConn(prev, mkUnary(l, ls, cfg.U), mkStream(l, ls, cfg.S))
 		sub := fmt.Sprintf("L%d/%d", i, depth)
 		if cfg.U == bNil && cfg.S == bNil {
 			if ch != prev {
-				add("no-interceptors-not-same", sub, fmt.Sprintf("InterceptClientConn(ch, nil, nil) at layer %d returned %T, not the channel given", i, ch))
+				r.add(0, "no-interceptors-not-same", sub, fmt.Sprintf("InterceptClientConn(ch, nil, nil) at layer %d returned %T, not the channel given", i, ch))
 			}
 			continue
 		}
 		nWrappers++
 		w, ok := ch.(grpchan.WrappedClientConn)
 		if !ok {
-			add("not-a-wrapper", sub, fmt.Sprintf("InterceptClientConn at layer %d returned %T which does not implement WrappedClientConn", i, ch))
+			r.add(0, "not-a-wrapper", sub, fmt.Sprintf("InterceptClientConn at layer %d returned %T which does not implement WrappedClientConn", i, ch))
 		} else if w.Unwrap() != prev {
-			add("unwrap", sub, fmt.Sprintf("Unwrap() of layer %d yields a %T which is not the channel that was wrapped (a %T)", i, w.Unwrap(), prev))
+			r.add(0, "unwrap", sub, fmt.Sprintf("Unwrap() of layer %d yields a %T which is not the channel that was wrapped (a %T)", i, w.Unwrap(), prev))
+		}
+	}
+	r.ch = ch
+	return r
+}
+
+// expectedLayers: which participants see a call of the given kind, outermost first (0 = the base).
+func expectedLayers(layers []layerCfg, kind string) (log []int, reached bool) {
+	for i := len(layers); i >= 1; i-- {
+		b := layers[i-1].U
+		if kind == "stream" {
+			b = layers[i-1].S
+		}
+		if b == bNil {
+			continue
+		}
+		log = append(log, i)
+		if b == bShort {
+			return log, false
+		}
+	}
+	return append(log, 0), true
+}
+
+// callRes is what one call through the outermost wrapper left behind.
+type callRes struct {
+	cs     grpc.ClientStream
+	es     []*entry
+	finish func() // hold only: completes the stream and runs the checks of the call
+}
+
+// call makes one call of the given kind through the outermost wrapper on the given context and compares
+// everything every participant saw with the reference model. n is the position of the call in a sequence
+// (0: not part of a sequence). ctxMode is the Ctx dimension of caseT (cancel is the context's own cancel
+// function, needed for modes 1 and 2). With hold, a real stream is left open after its request has been
+// sent (its server handler has started, nothing has been read): the caller makes further calls and then
+// runs finish().
+func (r *rig) call(n int, kind string, ctx context.Context, cancel context.CancelFunc, ctxMode int, hold bool) *callRes {
+	c, l, depth, states, names := r.c, r.l, r.depth, r.states, r.names
+	add := func(clause, sub, what string) { r.add(n, clause, sub, what) }
+
+	// reference model: who sees the call, with which options
+	var callerHdr metadata.MD
+	callerTag := tagOpt{tag: "caller"}
+	callerOpts := []grpc.CallOption{callerTag, grpc.Header(&callerHdr)}
+	names[callerOpts[0]] = "caller-tag"
+	names[callerOpts[1]] = "caller-header"
+	wantOpts := map[int][]grpc.CallOption{}
+	var wantLog []int
+	optsNow := cp(callerOpts)
+	reached := true
+	var shortAt int
+	var hdrWanted []*metadata.MD
+	hdrWanted = append(hdrWanted, &callerHdr)
+	for i := depth; i >= 1; i-- {
+		b := c.Layers[i-1].U
+		if kind == "stream" {
+			b = c.Layers[i-1].S
+		}
+		if b == bNil {
+			continue
+		}
+		wantLog = append(wantLog, i)
+		wantOpts[i] = cp(optsNow)
+		if b == bShort {
+			reached = false
+			shortAt = i
+			break
+		}
+		if b == bAddOpt {
+			if kind == "unary" {
+				optsNow = append(cp(optsNow), states[i].optU)
+				hdrWanted = append(hdrWanted, &states[i].hdrU)
+			} else {
+				optsNow = append(cp(optsNow), states[i].optS)
+				hdrWanted = append(hdrWanted, &states[i].hdrS)
+			}
+		}
+	}
+	if reached {
+		wantLog = append(wantLog, 0)
+		wantOpts[0] = cp(optsNow)
+	}
+	for i := 1; i <= depth; i++ {
+		if kind == "unary" {
+			states[i].hdrU = nil
+		} else {
+			states[i].hdrS = nil
 		}
 	}
 
-	var obs []string
-	for _, kind := range []string{"unary", "stream"} {
-		// reference model: who sees the call, with which options
-		var callerHdr metadata.MD
-		callerTag := tagOpt{tag: "caller"}
-		callerOpts := []grpc.CallOption{callerTag, grpc.Header(&callerHdr)}
-		names[callerOpts[0]] = "caller-tag"
-		names[callerOpts[1]] = "caller-header"
-		wantOpts := map[int][]grpc.CallOption{}
-		var wantLog []int
-		optsNow := cp(callerOpts)
-		reached := true
-		var shortAt int
-		var hdrWanted []*metadata.MD
-		hdrWanted = append(hdrWanted, &callerHdr)
-		for i := depth; i >= 1; i-- {
-			b := c.Layers[i-1].U
-			if kind == "stream" {
-				b = c.Layers[i-1].S
+	// the context
+	l.beforeReturn = nil
+	switch ctxMode {
+	case 1:
+		cancel()
+	case 2:
+		cancelLayer := 0
+		for _, w := range wantLog {
+			if w > 0 {
+				cancelLayer = w // the innermost interceptor reached
 			}
-			if b == bNil {
-				continue
-			}
-			wantLog = append(wantLog, i)
-			wantOpts[i] = cp(optsNow)
-			if b == bShort {
-				reached = false
-				shortAt = i
-				break
-			}
-			if b == bAddOpt {
-				if kind == "unary" {
-					optsNow = append(cp(optsNow), states[i].optU)
-					hdrWanted = append(hdrWanted, &states[i].hdrU)
-				} else {
-					optsNow = append(cp(optsNow), states[i].optS)
-					hdrWanted = append(hdrWanted, &states[i].hdrS)
+		}
+		if cancelLayer > 0 && (c.Base == "rec" || kind == "unary") {
+			l.beforeReturn = func(layer int) {
+				if layer == cancelLayer {
+					cancel()
 				}
 			}
 		}
-		if reached {
-			wantLog = append(wantLog, 0)
-			wantOpts[0] = cp(optsNow)
-		}
-		for i := 1; i <= depth; i++ {
-			states[i].hdrU, states[i].hdrS = nil, nil
-		}
+	}
 
-		// the context
-		ctx, cancel := context.WithCancel(context.Background())
-		l.beforeReturn = nil
-		switch c.Ctx {
-		case 1:
-			cancel()
-		case 2:
-			cancelLayer := 0
-			for _, w := range wantLog {
-				if w > 0 {
-					cancelLayer = w // the innermost interceptor reached
-				}
+	// the call
+	l.take()
+	r.cu.drainSignals()
+	req := wrapperspb.String("req")
+	resp := new(wrapperspb.StringValue)
+	desc := &grpc.StreamDesc{StreamName: "S", ClientStreams: true, ServerStreams: true}
+	method := unaryMethod
+	var err error
+	var cs grpc.ClientStream
+	var msgs []string
+	var streamEnd error
+	realStream := false
+	if kind == "unary" {
+		err = r.ch.Invoke(ctx, method, req, resp, callerOpts...)
+	} else {
+		method = streamMethod
+		cs, err = r.ch.NewStream(ctx, desc, method, callerOpts...)
+		if _, fake := cs.(*fakeCS); cs != nil && !fake && err == nil {
+			// a real stream: send the request; its handler logs its entry when it starts
+			realStream = true
+			if e := cs.SendMsg(req); e != nil && e != io.EOF {
+				streamEnd = fmt.Errorf("SendMsg: %w", e)
 			}
-			if cancelLayer > 0 && (c.Base == "rec" || kind == "unary") {
-				l.beforeReturn = func(layer int) {
-					if layer == cancelLayer {
-						cancel()
-					}
-				}
-			}
+			r.cu.awaitHandler()
 		}
+	}
+	l.beforeReturn = nil
+	res := &callRes{cs: cs, es: l.take()}
 
-		// the call
-		l.take()
-		req := wrapperspb.String("req")
-		resp := new(wrapperspb.StringValue)
-		desc := &grpc.StreamDesc{StreamName: "S", ClientStreams: true, ServerStreams: true}
-		method := unaryMethod
-		var err error
-		var cs grpc.ClientStream
-		var msgs []string
-		var streamEnd error
-		if kind == "unary" {
-			err = ch.Invoke(ctx, method, req, resp, callerOpts...)
-		} else {
-			method = streamMethod
-			cs, err = ch.NewStream(ctx, desc, method, callerOpts...)
-			if _, fake := cs.(*fakeCS); cs != nil && !fake && err == nil {
-				// a real stream: drive it to completion
-				if e := cs.SendMsg(req); e != nil && e != io.EOF {
-					streamEnd = fmt.Errorf("SendMsg: %w", e)
-				} else {
-					cs.CloseSend()
-					for k := 0; k < 5; k++ {
-						var out wrapperspb.StringValue
-						if e := cs.RecvMsg(&out); e != nil {
-							streamEnd = e
-							break
-						}
-						msgs = append(msgs, out.Value)
-					}
+	finish := func() {
+		if realStream && streamEnd == nil {
+			// drive it to completion
+			cs.CloseSend()
+			for k := 0; k < 5; k++ {
+				var out wrapperspb.StringValue
+				if e := cs.RecvMsg(&out); e != nil {
+					streamEnd = e
+					break
 				}
+				msgs = append(msgs, out.Value)
 			}
 		}
-		l.beforeReturn = nil
-		defer cancel()
-		es := l.take()
+		if !hold {
+			res.es = append(res.es, l.take()...)
+		}
+		es := res.es
 		got := layersOf(es)
 		o := fmt.Sprintf("%s: log(layer; 0=base)=%v err=%v", kind, got, err)
+		if n > 0 {
+			o = fmt.Sprintf("call #%d ", n) + o
+		}
 		if kind == "unary" {
 			o += fmt.Sprintf(" resp=%q", resp.Value)
 		} else {
@@ -620,14 +735,14 @@ func runCase(c caseT, verbose bool) (probs []problem, observed string) {
 			}
 		}
 		o += " cc=" + strings.Join(ccs, ",")
-		obs = append(obs, o)
-		if verbose {
+		r.obs = append(r.obs, o)
+		if r.verbose {
 			fmt.Printf("  %s   expected log=%v\n", o, wantLog)
 		}
 
 		if cl := classifyLog(got, wantLog); cl != "" {
 			add(cl, kind, fmt.Sprintf("%s call: event log (layers, outermost=%d, base=0) %v, expected %v", kind, depth, got, wantLog))
-			continue
+			return
 		}
 		for k, e := range es {
 			who := fmt.Sprintf("L%d", e.layer)
@@ -653,9 +768,9 @@ func runCase(c caseT, verbose bool) (probs []problem, observed string) {
 			if !optsEqual(e.opts, wantOpts[e.layer]) {
 				add("options", kind+"|"+who, fmt.Sprintf("%s call: %s was given options %s, expected %s", kind, who, optNames(names, e.opts), optNames(names, wantOpts[e.layer])))
 			}
-			if e.layer > 0 && e.cc != wantCC {
-				add("cc", fmt.Sprintf("%s|got=%s|wrappers-beneath=%d", kind, ccName(e.cc), wrappersBelow[e.layer]),
-					fmt.Sprintf("%s interceptor of layer %d (of %d, %d wrapper(s) beneath it) was given cc = %s, expected %s", kind, e.layer, depth, wrappersBelow[e.layer], ccName(e.cc), ccName(wantCC)))
+			if e.layer > 0 && e.cc != r.wantCC {
+				add("cc", fmt.Sprintf("%s|got=%s|wrappers-beneath=%d", kind, ccName(e.cc), r.wrappersBelow[e.layer]),
+					fmt.Sprintf("%s interceptor of layer %d (of %d, %d wrapper(s) beneath it) was given cc = %s, expected %s", kind, e.layer, depth, r.wrappersBelow[e.layer], ccName(e.cc), ccName(r.wantCC)))
 			}
 			if e.called && k+1 < len(es) {
 				nx := es[k+1]
@@ -676,14 +791,16 @@ func runCase(c caseT, verbose bool) (probs []problem, observed string) {
 				add("caller-result", kind, fmt.Sprintf("%s call: caller got a stream (%T) that is not the one the outermost participant returned (%T)", kind, cs, top.retStream))
 			}
 		}
+		last := es[len(es)-1] // the log is the expected one, which is never empty
 		if !reached {
+			// last is the entry of the short-circuiting layer
 			if kind == "unary" && err != states[shortAt].shortErr {
 				add("caller-result", kind, fmt.Sprintf("unary call short-circuited by layer %d: caller got %v", shortAt, err))
 			}
-			if kind == "stream" && (err != nil || cs != grpc.ClientStream(states[shortAt].shortStream)) {
+			if kind == "stream" && (err != nil || cs == nil || cs != last.retStream) {
 				add("caller-result", kind, fmt.Sprintf("stream creation short-circuited by layer %d: caller got (%T, %v)", shortAt, cs, err))
 			}
-			continue
+			return
 		}
 		// the base was reached
 		if c.Base == "rec" {
@@ -693,16 +810,16 @@ func runCase(c caseT, verbose bool) (probs []problem, observed string) {
 				}
 			} else if kind == "unary" && (err != nil || resp.Value != "resp") {
 				add("caller-result", kind, fmt.Sprintf("unary call: caller got err=%v resp=%q", err, resp.Value))
-			} else if kind == "stream" && (err != nil || cs != grpc.ClientStream(recStream)) {
+			} else if kind == "stream" && (err != nil || cs == nil || cs != last.retStream) {
 				add("caller-result", kind, fmt.Sprintf("stream creation: caller got (%T, %v), base returned its stream object", cs, err))
 			}
-			continue
+			return
 		}
 		final := err
 		if kind == "stream" {
 			if err != nil {
 				add("caller-result", kind, fmt.Sprintf("stream creation on a real base failed: %v", err))
-				continue
+				return
 			}
 			final = streamEnd
 			if final == io.EOF {
@@ -713,11 +830,11 @@ func runCase(c caseT, verbose bool) (probs []problem, observed string) {
 			if !isBaseError(final) {
 				add("caller-result", kind, fmt.Sprintf("%s call: server failed with NotFound \"base error\" + 1 detail, caller got %v", kind, final))
 			}
-			continue
+			return
 		}
 		if final != nil {
 			add("caller-result", kind, fmt.Sprintf("%s call: caller got %v, expected success", kind, final))
-			continue
+			return
 		}
 		if kind == "unary" && resp.Value != "resp" {
 			add("caller-result", kind, fmt.Sprintf("unary call: response %q, expected %q", resp.Value, "resp"))
@@ -736,7 +853,33 @@ func runCase(c caseT, verbose bool) (probs []problem, observed string) {
 			}
 		}
 	}
-	return probs, strings.Join(obs, "; ")
+	if hold {
+		res.finish = finish
+	} else {
+		finish()
+	}
+	return res
+}
+
+func runCase(c caseT, verbose bool) (probs []problem, observed string) {
+	atomic.AddInt64(&progress, 1)
+	current.Store(c.String())
+	var r *rig
+	defer func() {
+		if rec := recover(); rec != nil {
+			if r != nil {
+				probs = r.probs
+			}
+			probs = append(probs, problem{clause: "panic", what: fmt.Sprintf("library code panicked: %v", rec)})
+		}
+	}()
+	r = newRig(c, verbose)
+	for _, kind := range []string{"unary", "stream"} {
+		ctx, cancel := context.WithCancel(context.Background())
+		defer cancel()
+		r.call(0, kind, ctx, cancel, c.Ctx, false)
+	}
+	return r.probs, strings.Join(r.obs, "; ")
 }
 
 // ---------------------------------------------------------------- re-entrant case
@@ -765,7 +908,7 @@ var reentries int
 func runReentrant(c caseT, verbose bool) (probs []problem, observed string) {
 	atomic.AddInt64(&progress, 1)
 	current.Store(c.String())
-	add := func(clause, sub, what string) { probs = append(probs, problem{clause, sub, what}) }
+	add := func(clause, sub, what string) { probs = append(probs, problem{clause: clause, sub: sub, what: what}) }
 	defer func() {
 		if r := recover(); r != nil {
 			add("panic", "", fmt.Sprintf("library code panicked: %v", r))
@@ -773,7 +916,7 @@ func runReentrant(c caseT, verbose bool) (probs []problem, observed string) {
 	}()
 	re := c.Re
 	l := &clog{}
-	cur.Store(&curT{l: l})
+	cur.Store(newCur(l, false))
 	var base grpc.ClientConnInterface
 	var wantCC *grpc.ClientConn
 	recStream := &fakeCS{tag: "stream of the recording base"}
@@ -934,6 +1077,9 @@ func enumerateReentrant(fn func(caseT)) {
 
 // ---------------------------------------------------------------- enumeration
 
+// the per-layer alphabet of the sequence cases at depths that are not enumerated completely (quick tier)
+var sweepQuick = []layerCfg{{bPass, bPass}, {bPass, bNil}, {bNil, bPass}, {bAddOpt, bAddOpt}, {bShort, bShort}}
+
 func enumerate(fn func(caseT)) {
 	var cfgs []layerCfg
 	for u := 0; u < 4; u++ {
@@ -973,6 +1119,20 @@ func fingerprint(c caseT, pr problem) string {
 	}
 	if c.Ctx != 0 {
 		pr.sub += fmt.Sprintf("|ctx=%d", c.Ctx)
+	}
+	if c.Seq != nil {
+		// which call of the sequence went wrong, on a context from where; the kinds of the other calls of the
+		// sequence are in the replay object
+		kinds := []string{"", c.Seq.K1, c.Seq.K2, c.Seq.K3}
+		where := "layers"
+		if pr.call > 0 {
+			where = fmt.Sprintf("call%d=%s", pr.call, kinds[pr.call])
+		}
+		pat := ""
+		if pr.call > 0 {
+			pat = "|" + c.pattern(kinds[pr.call])
+		}
+		return fmt.Sprintf("C17|seq|%s|first=%s,ctx=%s|%s|%s%s|base_err=%v|%s", c.Base, c.Seq.K1, c.Seq.srcName(), where, pr.sub, pat, c.BaseErr, pr.clause)
 	}
 	switch pr.clause {
 	case "cc":
@@ -1020,6 +1180,8 @@ func main() {
 		run := runCase
 		if c.Re != nil {
 			run = runReentrant
+		} else if c.Seq != nil {
+			run = runSeq
 		}
 		probs, _ := run(c, true)
 		for _, pr := range probs {
@@ -1037,7 +1199,10 @@ func main() {
 	var samples []interface{}
 	suppressedFPs := map[string]bool{}
 	const maxReported = 100
-	reCases := 0
+	reCases, seqCases, calls := 0, 0, 0
+	seqDistinct := map[uint64]bool{}
+	seqBySrc := map[string]int{}
+	var seqSamples []interface{}
 	var reSample interface{}
 	visit := func(c caseT) {
 		evals++
@@ -1045,10 +1210,23 @@ func main() {
 		if c.Re != nil {
 			run = runReentrant
 			reCases++
+		} else if c.Seq != nil {
+			run = runSeq
+			seqCases++
+			calls++
 		}
+		calls += 2
 		probs, obs := run(c, false)
-		if c.Re != nil && c.Base == "grpc" && reSample == nil {
-			reSample = map[string]interface{}{"case": c, "observed": obs}
+		if c.Seq != nil {
+			if seqReachesMechanism(c) {
+				h := fnv.New64a() // millions of cases in the thorough tier: keep the set small
+				h.Write([]byte(c.String()))
+				seqDistinct[h.Sum64()] = true
+			}
+			seqBySrc[c.Seq.Src+"/"+c.Seq.Deriv]++
+			if isSeqSample(c) {
+				seqSamples = append(seqSamples, map[string]interface{}{"case": c, "observed": obs})
+			}
 		}
 		nonTrivial := false
 		for _, lc := range c.Layers {
@@ -1056,10 +1234,10 @@ func main() {
 				nonTrivial = true
 			}
 		}
-		if nonTrivial || c.Re != nil {
+		if (nonTrivial && c.Seq == nil) || c.Re != nil {
 			distinct[c.String()] = true
 		}
-		if len(samples) < 8 && len(c.Layers) >= 2 && evals%2089 == 0 {
+		if c.Seq == nil && len(samples) < 8 && len(c.Layers) >= 2 && evals%2089 == 0 {
 			samples = append(samples, map[string]interface{}{"case": c, "observed": obs})
 		}
 		for _, pr := range probs {
@@ -1076,21 +1254,39 @@ func main() {
 	if reSample != nil {
 		samples = append(samples, reSample)
 	}
+	tier := common.Arg("tier")
+	if tier == "" {
+		tier = os.Getenv("VERIF_TIER")
+	}
+	seqFullDepth, seqSweep, seqRule := 2, sweepQuick, "complete (16 per layer) at depths 0..2; at depth 3 swept: each layer one of {pass/pass, pass/nil, nil/pass, addopt/addopt, short/short} (unary/stream), all 125 combinations"
+	if tier == "thorough" {
+		seqFullDepth, seqSweep, seqRule = 3, nil, "complete (16 per layer) at depths 0..3"
+	}
+	enumerateSeq(seqFullDepth, seqSweep, visit)
+	samples = append(samples, seqSamples...)
 	if n := len(suppressedFPs); n > 0 {
 		fmt.Printf("(%d further distinct fingerprints not reported individually after the first %d)\n", n, maxReported)
 	}
 	os.Exit(rep.Finish("exploration", map[string]interface{}{
-		"evaluations":         evals,
-		"reentrant_cases":     reCases,
-		"reentries_observed":  reentries,
-		"rpc_calls":           2 * evals,
-		"distinct_nontrivial": len(distinct),
-		"rule":                "every configuration of: wrapping depth 0..3 x per layer (unary {nil,pass,short-circuit,append-an-option} x stream {same}) x base {recording stub, real *grpc.ClientConn over bufconn, inprocgrpc.Channel, httpgrpc.Channel over an in-memory RoundTripper} x base outcome {ok,error}; each makes one unary call and one stream creation (real streams are driven to completion). The caller's context is live, already cancelled (recording base only), or cancelled by the innermost interceptor reached just before it returns (recording base: both kinds; real bases: unary); the base's error is a NotFound status with one detail and must arrive unchanged (identity on the recording base, code+message+details on the real ones). RE-ENTRANT cases: a third-party WrappedClientConn sits between 0-1 pass/pass layers over the base and 1-2 layers above; its first Unwrap() issues a second RPC through the outermost channel on the same goroutine; every interceptor of both RPCs must be given the right cc and see its RPC exactly once. A configuration is non-trivial when at least one layer has an interceptor, i.e. a wrapper object of intercept.go is on the path; distinct by all parameters.",
-		"samples":             samples,
-		"exhaustive":          true,
-		"suppressed_reports":  len(suppressedFPs),
+		"evaluations":        evals,
+		"reentrant_cases":    reCases,
+		"reentries_observed": reentries,
+		"rpc_calls":          calls,
+		"sequence_cases":     seqCases,
+		"sequence_cases_by_context_source_and_derivation": seqBySrc,
+		"sequence_follow_up_pairs_made":                   seqStats.followUps,
+		"sequence_first_call_left_no_context_source":      seqStats.noSource,
+		"sequence_context_source_already_done":            seqStats.deadSource,
+		"distinct_nontrivial_single_and_reentrant":        len(distinct),
+		"distinct_nontrivial_sequences":                   len(seqDistinct),
+		"distinct_nontrivial":                             len(distinct) + len(seqDistinct),
+		"rule":                                            "every configuration of: wrapping depth 0..3 x per layer (unary {nil,pass,short-circuit,append-an-option} x stream {same}) x base {recording stub, real *grpc.ClientConn over bufconn, inprocgrpc.Channel, httpgrpc.Channel over an in-memory RoundTripper} x base outcome {ok,error}; each makes one unary call and one stream creation (real streams are driven to completion). The caller's context is live, already cancelled (recording base only), or cancelled by the innermost interceptor reached just before it returns (recording base: both kinds; real bases: unary); the base's error is a NotFound status with one detail and must arrive unchanged (identity on the recording base, code+message+details on the real ones). RE-ENTRANT cases: a third-party WrappedClientConn sits between 0-1 pass/pass layers over the base and 1-2 layers above; its first Unwrap() issues a second RPC through the outermost channel on the same goroutine; every interceptor of both RPCs must be given the right cc and see its RPC exactly once. A configuration is non-trivial when at least one layer has an interceptor, i.e. a wrapper object of intercept.go is on the path; distinct by all parameters. SEQUENCE cases (where the context of a call comes from): a first call (unary | stream) on a new context through the outermost wrapper, then a second and a third call (each unary | stream, all four pairs) on ONE context that is {fresh: new and unrelated | same: the caller's context of the first call | stream: Context() of the stream the first call returned, which is still open (request sent, server handler started, nothing read) and is completed after the follow-up calls | icpt@Lj: the context the interceptor of layer j was handed during the first call, for every layer j whose interceptor the first call reaches} x {as it is | context.WithValue of it | context.WithCancel of it}; crossed with base x base outcome x layer configurations " + seqRule + "; every one of the three calls is checked with the full single-call oracle (event log = every applicable layer exactly once, outermost first, then the base; cc; method, messages, options; results). A sequence case is non-trivial when the context is not the fresh one and at least one follow-up call is due to pass an interceptor; distinct by all parameters. Not crossed with the sequences: the cancelled-context modes and the re-entrant third-party wrapper.",
+		"samples":                                         samples,
+		"exhaustive":                                      true,
+		"suppressed_reports":                              len(suppressedFPs),
 	}, []string{
 		"the real gRPC connection runs over google.golang.org/grpc/test/bufconn (in-memory), the HTTP channel over common.HandlerRT; no sockets",
+		"sequence cases: follow-up calls are made while the first call's stream is open and every context live (calls on a dead context are the ctx=1 single-call cases, recording base); the streams of the recording base and of short-circuiting interceptors are stubs whose Context() is the context their creator was given; contexts are reused only on the wrapped channel they came from, not across differently wrapped channels",
 		"identity of messages/options at the base is observed on the recording stub; on the three real bases the base is observed through the server handler (ran once, read the request) and through grpc.Header options being filled",
 	}))
 }
